@@ -655,6 +655,26 @@ class Interp:
         if isinstance(node, ast.Tuple):
             return tuple(self.eval_index(e, env, func, depth) for e in node.elts)
         if isinstance(node, ast.Slice):
+            # x[-k:] with a COMPUTED k: "the last k entries" -- except for k = 0, where -0 is 0 and the slice is the WHOLE array
+            if node.lower is not None and node.upper is None and isinstance(node.lower, ast.UnaryOp) and isinstance(node.lower.op, ast.USub) \
+                    and not isinstance(node.lower.operand, ast.Constant):
+                k = self.eval(node.lower.operand, env, func, depth)
+                if isinstance(k, int) and not isinstance(k, bool):
+                    if k == 0:
+                        raise AnalysisError("%s:%d slice [-0:]" % (func.qualname, node.lineno))
+                elif self.dom.is_value(k):
+                    alg = getattr(self.dom, "alg", None)
+                    pos = None
+                    if alg is not None and hasattr(alg, "sign"):
+                        try:
+                            pos = alg.sign(alg.sub(k, alg.const(1))) in ("+", ">=0", "0")
+                        except Exception:
+                            pos = None
+                    if not pos:
+                        e = AnalysisError("%s:%d suffix slice with a count that may be zero" % (func.qualname, node.lineno))
+                        e.violation = ("NEG-ZERO-SLICE", func.qualname, "`[%s]` (line %d) means \"the last k entries\" only for k >= 1: when the computed count `%s` is 0, `-0` is `0` and the slice is the WHOLE array (an empty second zone scales every cell; an empty tail selects everything) -- nothing makes the count positive here" % (unparse(node)[:40], node.lineno, unparse(node.lower.operand)[:40]),
+                                       "neg-zero-slice", {"C20", "C01", "C11", "C14", "C15", "C13", "C03", "C04"})
+                        raise e
             lo = self.eval(node.lower, env, func, depth) if node.lower else None
             hi = self.eval(node.upper, env, func, depth) if node.upper else None
             stp = self.eval(node.step, env, func, depth) if node.step else None
@@ -701,7 +721,7 @@ class Interp:
             o = ObjStub("class " + ci.name, {r: "registry:%s.%s" % (ci.name, r) for c in self.p.mro(ci) for r in c.registries})
             o.cls = ci
             return o
-        if node.id in ("abs", "len", "range", "min", "max", "float", "int", "enumerate", "zip", "round", "list", "slice", "getattr", "setattr", "hasattr", "isinstance", "tuple", "dict", "bool", "type"):
+        if node.id in ("abs", "len", "range", "min", "max", "float", "int", "enumerate", "zip", "round", "list", "slice", "getattr", "setattr", "hasattr", "isinstance", "tuple", "dict", "bool", "type", "any", "all"):
             return ModuleRef("builtin:" + node.id)
         if node.id in mod.assigns and isinstance(mod.assigns[node.id], (ast.Dict, ast.List, ast.Tuple, ast.Constant)):
             return self.eval(mod.assigns[node.id], {}, func, depth)        # a module-level literal (a default table)
@@ -864,7 +884,7 @@ class Interp:
         return out
 
     def e_ListComp(self, node, env, func, depth):
-        if len(node.generators) != 1 or node.generators[0].ifs:
+        if len(node.generators) != 1:
             raise AnalysisError("unsupported comprehension")
         g = node.generators[0]
         it = self.eval(g.iter, env, func, depth)
@@ -874,7 +894,15 @@ class Interp:
         for x in it:
             e2 = dict(env)
             self.assign(g.target, x, e2, func, depth)
-            out.append(self.eval(node.elt, e2, func, depth))
+            keep = True
+            for c in g.ifs:
+                cv = self.eval(c, e2, func, depth)
+                t = (cv is not None and cv is not False and cv != 0) if (cv is None or isinstance(cv, (bool, int, OpaqueFn)) or callable(cv)) else self.truth(cv)
+                if t is None:
+                    raise AnalysisError("%s:%d comprehension filter not decided" % (func.qualname, node.lineno))
+                keep = keep and bool(t)
+            if keep:
+                out.append(self.eval(node.elt, e2, func, depth))
         return out
 
     def e_DictComp(self, node, env, func, depth):
@@ -1488,6 +1516,10 @@ class Interp:
                 return list(args[0])
             if base == "tuple" and isinstance(args[0], (list, tuple)):
                 return tuple(args[0])
+            if base in ("any", "all") and len(args) == 1 and isinstance(args[0], (list, tuple)) and all(x is None or isinstance(x, (bool, int, str, OpaqueFn)) or callable(x) for x in args[0]):
+                # Python's any / all over concrete entries (indices, names, callables or None): TRUTHINESS -- any([0]) is False
+                ts = [not (x is None or x is False or (isinstance(x, int) and x == 0) or x == "") for x in args[0]]
+                return any(ts) if base == "any" else all(ts)
             if base == "bool" and len(args) == 1:
                 t = self.truth(args[0])
                 if t is None:
